@@ -342,11 +342,15 @@ class OverridableProbe(Probe):
 
         This is used internally.
         """
-        self._value = ABSENT
-        super()._emit(data, acc=acc, element=element)
         # self._value is set by override(), but this will only work if the pipeline
-        # is synchronous
-        return self._value
+        # is synchronous. A subscriber may call a probed function again: the
+        # value pending for this event is put back afterwards.
+        pending, self._value = getattr(self, "_value", ABSENT), ABSENT
+        try:
+            super()._emit(data, acc=acc, element=element)
+            return self._value
+        finally:
+            self._value = pending
 
 
 def probing(
